@@ -43,7 +43,9 @@ ASSUME = [
     "before and earlier than S + 40 ms after the nominal interrupt time: either attribution is accepted there",
     "the failure message class is read from the FAIL line of the script log (timed out / timeout / deadline => timed-out message); "
     "its wording is not judged.  [signal: killed] / [context deadline exceeded] lines are recorded, not judged",
-    "one foreground exec per script, 1..8 scripts per RunT call, a T implementation that runs subtests in parallel; "
+    "one foreground exec per script, 1..8 scripts per RunT call with a T implementation that runs subtests in parallel, plus (per deadline "
+    "distance) three scripts that start late: second script of a RunT call whose T runs subtests one after the other, the first script "
+    "leaving a third of the way to the interrupt; "
     "background commands (killDelay = -1) are modelled in Deadline.tla (no escalation) but not part of the statement",
     "Deadline.tla idealisation: goroutine steps take no time but interleave in every order with the timed events of the same instant; "
     "timed events (context, kill timer, process death) happen within J = 1 tick (25 ms) of their due time",
@@ -182,7 +184,7 @@ def observed(rec):
 
 
 def case_of(rec):
-    return {k: rec[k] for k in ("label", "D", "x", "onint", "ok", "neg")}
+    return {k: rec.get(k, 0) for k in ("label", "D", "x", "onint", "ok", "neg", "after")}
 
 
 def judge(ctx, runner, misses):
@@ -192,7 +194,7 @@ def judge(ctx, runner, misses):
     violations, transient, unreproduced, inconclusive = [], [], [], []
     todo, seen = [], set()
     for rec, laws in misses:          # one representative per (laws, case) is enough to decide; cap the work
-        key = (tuple(sorted(laws)), rec["D"], rec["onint"], rec["x"], rec["ok"], rec["neg"])
+        key = (tuple(sorted(laws)), rec["D"], rec["onint"], rec["x"], rec["ok"], rec["neg"], rec.get("after", 0))
         if key not in seen:
             seen.add(key)
             todo.append(dict(rec=rec, laws=laws, repro={l: 0 for l in laws}, tries=0, last_round={}))
@@ -238,11 +240,13 @@ def judge(ctx, runner, misses):
             violations.append(dict(
                 kind="l1-rejected:" + law,
                 what="DeadlineL1.%s rejects what the real RunT did with Params.Deadline = now + %d ms for a child that %s and %s "
-                     "(reproduced in %d of %d re-runs): %s" % (
+                     "%s(reproduced in %d of %d re-runs): %s" % (
                          law, rec["D"], "ignores the interrupt" if rec["onint"] == "ignore" else "dies of the interrupt",
                          "never leaves on its own" if rec["x"] < 0 else "leaves on its own at %d ms" % rec["x"],
+                         "in a script that starts after an earlier script of the same RunT call ended at about %d ms " % rec["after"] if rec.get("after") else "",
                          it["repro"][law], it["tries"], explain(law, rec)),
-                input=info, **{"class": "%s|D=%d|x=%d|%s|ok=%s|neg=%s" % (law, rec["D"], rec["x"], rec["onint"], rec["ok"], rec["neg"])}))
+                input=info, **{"class": "%s|D=%d|x=%d|%s|ok=%s|neg=%s%s" % (law, rec["D"], rec["x"], rec["onint"], rec["ok"], rec["neg"],
+                                                                      "|after=%d" % rec["after"] if rec.get("after") else "")}))
         else:
             dict(transient=transient, unreproduced=unreproduced, inconclusive=inconclusive)[verdict].append(info)
 
